@@ -61,6 +61,7 @@ class Ctx:
         self.proof_breaks = []      # text
         self.histogram = {}
         self.notes = []
+        self.stats = {}
         self.obligations = 0
         self.discharged = 0
         self.known, self.fixed = core.load_known()
@@ -171,6 +172,10 @@ def stage_corr(ctx, prop, seed_offset=0, scale=1):
             ctx.corr_breaks.append(dict(kind="correspondence", domain=d.name, op="(harness exit %d)" % rc,
                                         impl=se[-500:], model="", spec="", why="harness crashed"))
         run_ops(ctx, d.name, pairs)
+        for k, v in core.STATS.items():
+            old = ctx.stats.get(k)
+            if old is None or v["value"] > old["value"]:
+                ctx.stats[k] = dict(v, domain=d.name)
 
 
 def finish(ctx, prop):
@@ -215,7 +220,7 @@ def finish(ctx, prop):
             "input_distribution": ctx.histogram,
             "correspondence_breaks": len(ctx.corr_breaks), "proof_breaks": ctx.proof_breaks[:10],
             "known_findings_observed": sorted(ctx.known_hits.keys()),
-            "partial": prop.partial_note, "notes": ctx.notes,
+            "partial": prop.partial_note, "notes": ctx.notes, "measurements": ctx.stats,
         },
         "assumptions": list(prop.assumptions),
         "wall_s": round(wall, 2),
